@@ -330,6 +330,11 @@ impl EventGen for GroupElement {
 //@ replace[R-into] <<<events.push(OutputEvent::Empty(new_el));>>> => <<<events.push(ev_empty(new_el));>>>
 //@ replace[R-into] <<<events.push(OutputEvent::Start(new_el));>>> => <<<events.push(ev_start(new_el));>>>
 //@ replace[R-into] <<<events.push(OutputEvent::End(el_name));>>> => <<<events.push(ev_end(el_name));>>>
+//@ before <<<        // pop variables off the stack\n        context.pop_element();>>>
+//@ | let ghost g_pushed = context.element_stack@.last();     // the group as evaluated on entry (what its content saw as variables)
+//@ | assert(context.element_stack@.len() > 0);
+//@ before <<<context.update_element(&new_el);>>>
+//@ | assert(new_el.attrs == g_pushed.attrs && new_el.classes == g_pushed.classes); // the group that is registered and boxed is the one evaluated on entry: its attribute expressions are evaluated ONCE (a second evaluation advances random() again and may see other bindings) @C14.group.attributes_evaluated_once @C15.group.attributes_evaluated_once
 //@ ensures
 //@ - r is Ok && old(context).scope_stack.len() > 0 ==> final(context).scope_stack@ == old(context).scope_stack@    @@C15.group.bindings_restored
 //@end
